@@ -161,7 +161,7 @@ def run(ctx):
 
     # ---- R5 schedule independence -------------------------------------------------------------------------------------
     F = ctx.F("A")
-    pm = [e for e in Q.calls(eng, "rayon::iter::ParallelIterator::map") if e["frame"] == fr.key]
+    pm = [e for e in Q.calls(eng, "rayon::iter::ParallelIterator::map") if e["home"] == fr.key]
     ok5 = len(pm) >= 1
     caps = []
     for e in pm:
